@@ -390,12 +390,13 @@ class DeserializationMethodVisitor(
         def factory(constraints: Optional[Constraints], _) -> DeserializationMethod:
             from apischema import settings
 
-            value_map = dict(zip(literal_values(values), values))
+            keys = literal_values(values)
             return LiteralMethod(
-                value_map,
-                preformat_error(settings.errors.one_of, list(value_map)),
+                # True == 1 and False == 0 for Python, not for JSON
+                {(isinstance(key, bool), key): value for key, value in zip(keys, values)},
+                preformat_error(settings.errors.one_of, list(dict.fromkeys(keys))),
                 self.coercer,
-                tuple(dict.fromkeys(map(type, value_map))),
+                tuple(dict.fromkeys(map(type, keys))),
             )
 
         return self._factory(factory)
